@@ -53,6 +53,16 @@ def bodies(n, depth, leaves=LEAVES):
     return out
 
 
+def _nodes(ss):
+    for st in ss:
+        yield st
+        if st[0] == 'p':
+            yield from _nodes(st[1])
+        elif st[0] == 'i':
+            yield from _nodes(st[1])
+            yield from _nodes(st[2])
+
+
 class R:
     def __init__(self):
         self.n = 0
@@ -101,20 +111,24 @@ def render_try(kind, body, handler, r):
 def core_family(seed, tier):
     rnd = random.Random(seed)
     items = []
-    n1 = 3 if tier == 'quick' else 4
-    B = bodies(n1, 2)
+    B = bodies(3, 2)
     handlers = [(), (('o',),), (('s1',), ('o',))]
     single = []
     for b in B:
         if not b:
             continue
         for kind in ('undo', 'stop'):
-            for h in handlers[:2] if tier == 'quick' else handlers:
+            for h in (handlers[:2] if tier == 'quick' else [handlers[1]]):
                 single.append((kind, b, h))
     if tier == 'quick':
         rnd.shuffle(single)
-        small = [t for t in single if sum(1 for _ in str(t[1])) < 40]
         single = single[:420]
+    else:
+        # exhaustive to 3 nodes; a seeded sample of the 38 300 bodies of exactly 4 nodes
+        B4 = [b for b in bodies(4, 2) if sum(1 for _ in _nodes(b)) == 4]
+        rnd.shuffle(B4)
+        for b in B4[:1500]:
+            single.append((rnd.choice(('undo', 'stop')), b, rnd.choice(handlers)))
     for i, (kind, b, h) in enumerate(single):
         r = R()
         src = PRELUDE + "empty @is_you(int x0) { x = x0; write('<'); %s write('>'); write(x); }" % render_try(kind, b, h, r)
@@ -131,9 +145,8 @@ def core_family(seed, tier):
               ('undo', (('cg',),), (('o',),))]
     seconds = [b for b in bodies(2 if tier == 'quick' else 3, 1) if any(s[0] in ('cf', 'cg', 'cr', 'cw', 'p') or s[0] == 'i' for s in b) or any(s[0] in ('d', 't0', 't1') for s in b)]
     pairs = [(f, k2, b2) for f in firsts for k2 in ('undo', 'stop') for b2 in seconds]
-    if tier == 'quick':
-        rnd.shuffle(pairs)
-        pairs = pairs[:260]
+    rnd.shuffle(pairs)
+    pairs = pairs[:260 if tier == 'quick' else 4000]
     for i, (f, k2, b2) in enumerate(pairs):
         r = R()
         src = PRELUDE + "empty @is_you(int x0) { x = x0; %s write('|'); x = x0; %s write('>'); write(x); }" % (
